@@ -503,7 +503,7 @@ def _maybe_apply_am_pm(t: Time, ampm_match: str) -> Time:
 @rule(
     # match hhmm
     r"(?<!\d|\.)(?P<hour>(?:[01]\d)|(?:2[0-3]))(?P<minute>(?&_minute))"
-    r"\s*(?P<clock>uhr|h)?"  # optional uhr
+    r"\s*(?P<clock>(?:uhr|h)\b)?"  # optional uhr, not the first letter of a word
     r"\s*(?P<ampm>\s*[ap]\.?m\.?)?(?!\d)"  # optional am/pm
 )
 def ruleHHMMmilitary(ts: datetime, m: RegexMatch) -> Optional[Time]:
@@ -518,7 +518,7 @@ def ruleHHMMmilitary(ts: datetime, m: RegexMatch) -> Optional[Time]:
     r"(?P<hour>(?&_hour))"  # We certainly match an hour
     # We try to match also the minute
     r"((?P<sep>:|uhr|h|\.)(?P<minute>(?&_minute)))?"
-    r"\s*(?P<clock>uhr|h)?"  # We match uhr with no minute
+    r"\s*(?P<clock>(?:uhr|h)\b)?"  # We match uhr with no minute
     r"(?P<ampm>\s*[ap]\.?m\.?)?"  # AM PM
     r"(?!\d)"
 )
@@ -530,7 +530,7 @@ def ruleHHMM(ts: datetime, m: RegexMatch) -> Time:
     return _maybe_apply_am_pm(t, m.match.group("ampm"))
 
 
-@rule(r"(?<!\d|\.)(?P<hour>(?&_hour))\s*(uhr|h|o\'?clock)")
+@rule(r"(?<!\d|\.)(?P<hour>(?&_hour))\s*(uhr|h|o\'?clock)\b")
 def ruleHHOClock(ts: datetime, m: RegexMatch) -> Time:
     return Time(hour=int(m.match.group("hour")))
 
